@@ -293,6 +293,76 @@ def canon(B, op, depth=0, at=None):
     return ('unknown',)
 
 
+_FIELD_LEN = {}
+LEN_CHANGING = ('push', 'pop', 'insert', 'remove', 'clear', 'truncate', 'resize', 'resize_with', 'extend', 'extend_from_slice', 'append', 'drain', 'retain', 'retain_mut', 'dedup',
+                'dedup_by', 'dedup_by_key', 'swap_remove', 'split_off', 'set_len', 'reserve', 'shrink_to', 'shrink_to_fit', 'push_back', 'push_front', 'pop_back', 'pop_front', 'take', 'replace', 'swap')
+
+
+def _fixed_field_len(B, base):
+    """the length of `self.<field>` when the field is a vector that every constructor of its struct builds with one constant length and that
+    nothing in the workspace ever grows, shrinks, replaces or lends out mutably (a fixed table of slots): that constant, else None"""
+    if not (isinstance(base, tuple) and base and base[0] == 'place' and base[2] and isinstance(base[2][-1], str)):
+        return None
+    fld = base[2][-1]
+    P = getattr(B, 'PROGRAM', None)
+    if P is None or fld.startswith('as:') or fld.isdigit():
+        return None
+    key = (id(P), fld)
+    if key in _FIELD_LEN:
+        return _FIELD_LEN[key]
+    _FIELD_LEN[key] = None
+    owners = [a for a, d in P.F.adts.items() if a.split('::')[0] in ('erltf', 'edp_client', 'edp_node', 'erltf_serde', 'edp_elixir_terms')
+              for v in d.get('variants', []) for f in v.get('fields', []) if f.get('n') == fld and 'Vec<' in str(f.get('ty'))]
+    if len(owners) != 1:
+        return None
+    adt = owners[0]
+    from .core import callee_of, root_fields
+    consts = set()
+    n_ctor = 0
+    for q, b in P.F.bodies.items():
+        if b.get('crate') not in ('erltf', 'edp_client', 'edp_node', 'erltf_serde', 'edp_elixir_terms') or b.get('kind') not in ('Fn', 'AssocFn', 'Closure'):
+            continue
+        QB = P.B(q)
+        for bb, j, st in QB.stmts():
+            if st['k'] != '=':
+                continue
+            rv = st['rv']
+            if rv['k'] == 'agg' and rv.get('adt') == adt and fld in (rv.get('fn') or []):
+                n_ctor += 1
+                o = QB.origin(rv['ops'][rv['fn'].index(fld)])
+                n_ = None
+                if o and o[0] == 'call' and str(o[1]).endswith('vec::from_elem'):
+                    t_ = QB.blocks[o[2]]['t']
+                    if len(t_['args']) > 1:
+                        from .core import fold
+                        n_ = fold(QB.origin(t_['args'][1]))
+                if n_ is None and o and o[0] == 'call' and str(o[1]).endswith('::clone'):
+                    t_ = QB.blocks[o[2]]['t']
+                    if t_['args'] and fld in root_fields(QB, t_['args'][0]):
+                        continue        # a copy of the same field of another value of the type (derived Clone)
+                if n_ is None and o and o[0] == 'arg' and fld in [str(x) for x in (o[2] or ())] and '::clone::Clone>::clone' in q:
+                    continue            # derived Clone (the origin chase looks through clone())
+                if n_ is None:
+                    return None
+                consts.add(n_)
+            ps = st['pl'].get('p') or []
+            if ps and isinstance(ps[-1], dict) and ps[-1].get('n') == fld and ps[-1].get('adt') == adt:
+                return None        # the field is assigned outside a constructor literal
+            if rv['k'] in ('ref', 'rawptr') and rv.get('mut', True):
+                pp = rv['pl'].get('p') or []
+                if pp and isinstance(pp[-1], dict) and pp[-1].get('n') == fld and pp[-1].get('adt') == adt:
+                    # `&mut self.slots`: fine only as the receiver of an index / iteration that keeps the length
+                    uses = [t2 for b2, t2 in QB.calls() if any(l == st['pl']['l'] for a in t2['args'] for l in QB._op_locals(a))]
+                    if not uses or any((callee_of(t2)[0] or '').rsplit('::', 1)[-1] not in ('index_mut', 'iter_mut', 'get_mut', 'deref_mut', 'as_mut_slice', 'fill', 'first_mut', 'last_mut') for t2 in uses):
+                        return None
+        for bb, t in QB.calls():
+            if t['args'] and (callee_of(t)[0] or '').rsplit('::', 1)[-1] in LEN_CHANGING and fld in root_fields(QB, t['args'][0]):
+                return None
+    if n_ctor >= 1 and len(consts) == 1:
+        _FIELD_LEN[key] = next(iter(consts))
+    return _FIELD_LEN[key]
+
+
 class Ranges:
     FNS = {}      # path -> signature record, set once per run (for recognising workspace parsers)
 
@@ -613,6 +683,9 @@ class Ranges:
                 return (c[1], c[1])
         elif k == 'len':
             lo, hi = max(lo, 0), min(hi, LEN_MAX)
+            n_ = _fixed_field_len(self.B, c[1])
+            if n_ is not None:
+                lo, hi = max(lo, n_), min(hi, n_)
         elif k == 'remaining':
             lo, hi = max(lo, 0), min(hi, LEN_MAX)
         elif k == 'call':
